@@ -19,7 +19,7 @@ VARIABLES l, nfail, runs, inst
 tvars == <<l, nfail, runs, inst>>
 
 ToSet(s) == {s[i] : i \in 1..Len(s)}
-StmtOf(j) == [kind |-> j.kind, place |-> j.place, T |-> j.T, U |-> j.U, V |-> j.V, e |-> j.e, pf |-> j.pf]
+StmtOf(j) == [kind |-> j.kind, place |-> j.place, T |-> j.T, U |-> j.U, V |-> j.V, e |-> j.e, pf |-> j.pf, on |-> j.on, hp |-> j.hp]
 InstOf(j) == [cfg |-> j.cfg, stmts |-> [i \in 1..Len(j.stmts) |-> StmtOf(j.stmts[i])]]
 
 AddFail(f) == /\ nfail' = nfail + 1
